@@ -778,6 +778,14 @@ func emitServe(t *tracer, m *cors.Middleware, dbg bool, rs reqSpec, pre http.Hea
 		ev["entry"] = map[string]any{}
 		ev["after"] = map[string]any{}
 	}
+	// what the middleware itself produced over the headers it found: the header map at handler entry, or - when it answered the
+	// request itself - the final one; both projected like `resp` (model conformance with pre-set headers, TraceConform)
+	mwout := w.final()
+	if entry != nil {
+		mwout = entry
+	}
+	ev["mwout"] = absRespH(w.status, mwout)
+	ev["preabs"] = absRespH(0, pre)["hdrs"]
 	ev["final"] = hdrJSON(w.final())
 	ev["varyt"] = tokLines(w.final()["Vary"], true)
 	hs := inner.Status
